@@ -3,15 +3,18 @@ import gen
 
 ID = "C01"
 LEVEL = "proof"
-MODULES = ["H3Proofs.Props.C01", "H3Proofs.Props.C05Valid2"]
+MODULES = ["H3Proofs.Props.C01", "H3Proofs.Props.C05Valid2", "H3Proofs.Props.C02Valid", "H3Proofs.Props.C09Valid", "H3Proofs.Props.C10Valid", "H3Proofs.Props.C05All"]
 THEOREMS = ["H3.C01.isValidCell_eq_layout", "H3.C01.isValidCell_defined_all", "H3.C01.pentBC_eq_table",
-            "H3.C05V.h3NeighborRotations_layout", "H3.C05V.walk_valid"]
+            "H3.C05V.h3NeighborRotations_layout", "H3.C05V.walk_valid", "H3.C02V.faceIjkToH3_valid",
+            "H3.C09V.localIjToCell_valid", "H3.C09V.gridPathCells_valid", "H3.C10V.edge_cells_valid",
+            "H3.C05R.gridDiskDistancesUnsafe_valid", "H3.C05R.gridRingUnsafe_valid", "H3.C05All.gridDiskDistances_valid"]
 BV_DECIDE_THEOREMS = ["H3.C01.isValidCell_eq_layout", "H3.C01.isValidCell_defined_all"]
-NOT_PROVED = ["closure clause: theorems for the hierarchy functions (C04/C13 modules), for every neighbour step and "
-              "everything the safe disk writes (C05Valid2), for compactCells/uncompactCells (C06 modules); for the "
-              "remaining cell-returning functions (latLngToCell, localIjToCell, gridPathCells, polygon fill, edges, "
-              "vertexes) it is a runtime monitor: every cell those API calls return in the closure sweep is passed "
-              "through the documented layout"]
+NOT_PROVED = ["closure clause: a theorem for every cell-returning function of the model except the polygon fills and "
+              "cellsToLinkedMultiPolygon (hierarchy: C04/C13 modules; neighbour steps, safe disk, ring walks, gridDisk: C05Valid2 / "
+              "C05Ring / C05All; compactCells / uncompactCells: C06 modules; _faceIjkToH3, i.e. whatever latLngToCell returns: "
+              "C02Valid; localIjToCell and every cell of gridPathCells: C09Valid; edge origin / destination: C10Valid); the polygon "
+              "fills return cells of the resolution's enumeration (C07Iter.polyfill_mem); in addition the closure sweep passes "
+              "every cell those API calls return on the real library through the documented layout (runtime monitor)"]
 ASSUMPTIONS = ["Gen.Bits.isValidCell is the c2lean translation of the C text (validated differentially here, "
                "helper by helper)", "bv_decide's LRAT checker (one native axiom per bv_decide theorem)"]
 EXPLANATION = ("isValidCell generated from C equals the hand-written documentation-level layoutSpec for all 2^64 "
